@@ -581,7 +581,7 @@ func NewRequest(req *http.Request, withBody bool) (*Request, error) {
 		HeadersSize: -1,
 		BodySize:    req.ContentLength,
 		QueryString: []QueryString{},
-		Headers:     headers(proxyutil.RequestHeader(req).Map()),
+		Headers:     withTrailer(headers(proxyutil.RequestHeader(req).Map()), req.Trailer),
 		Cookies:     cookies(req.Cookies()),
 	}
 
@@ -644,7 +644,7 @@ func NewResponse(res *http.Response, withBody bool) (*Response, error) {
 		StatusText:  http.StatusText(res.StatusCode),
 		HeadersSize: -1,
 		BodySize:    res.ContentLength,
-		Headers:     headers(proxyutil.ResponseHeader(res).Map()),
+		Headers:     withTrailer(headers(proxyutil.ResponseHeader(res).Map()), res.Trailer),
 		Cookies:     cookies(res.Cookies()),
 	}
 
